@@ -30,6 +30,8 @@ pub struct Run<'a> {
     /// also project the note commitment trees (C06) after every operation
     pub trees: bool,
     pub salt: u64,
+    /// Some((sapling size, orchard size)): the wallet was born into a chain with these tree sizes
+    pub shard: Option<(u64, u64)>,
 }
 
 impl<'a> Run<'a> {
@@ -42,13 +44,39 @@ impl<'a> Run<'a> {
         let (w, keys) = W::with_retention(ironwood, interval);
         let chain = Chain::new(w.base, keys, &mut rng, ironwood);
         let trees = std::env::var("VERIF_TREES").map(|v| v == "1").unwrap_or(false);
-        let mut r = Run { w, chain, out, rng, ironwood, next_value: 0, aborted: false, orphaned: vec![], trees, salt: seed };
+        let mut r = Run { w, chain, out, rng, ironwood, next_value: 0, aborted: false, orphaned: vec![], trees, salt: seed, shard: None };
         let post = r.post();
         // retention grid of this wallet: interval (0: policy inactive, NU6.3 not active) and first height it applies to
         let grid = if ironwood { interval.unwrap_or(144) } else { 0 };
         let gbase = r.w.base;   // heights are logged relative to `base`; absolute = base + rel
         r.out.emit(&json!({"a": "reset", "hist": label, "ironwood": ironwood, "grid": grid, "gbase": gbase, "post": post}));
         r
+    }
+
+    /// A history whose wallet was born into a chain with non-empty trees just below shard boundaries.
+    pub fn sharded(out: &'a mut NdjsonWriter, seed: u64, ironwood: bool, sap: u64, orch: u64, label: Value) -> Self {
+        let mut rng = ChaChaRng::seed_from_u64(seed);
+        let (w, keys, init) = W::sharded(ironwood, sap, orch);
+        let chain = Chain::with_initial(w.base, keys, &mut rng, ironwood, &init);
+        let trees = std::env::var("VERIF_TREES").map(|v| v == "1").unwrap_or(false);
+        let mut r = Run { w, chain, out, rng, ironwood, next_value: 0, aborted: false, orphaned: vec![], trees, salt: seed, shard: Some((sap, orch)) };
+        let post = r.post();
+        let grid = if ironwood { 144 } else { 0 };
+        let gbase = r.w.base;
+        r.out.emit(&json!({"a": "reset", "hist": label, "ironwood": ironwood, "grid": grid, "gbase": gbase, "post": post}));
+        r
+    }
+
+    /// tell the wallet the roots of the shards the harness chain has completed so far (as a server would)
+    pub fn put_roots(&mut self) {
+        let roots = self.chain.shard_roots.clone();
+        for (pool, index, root, h) in roots {
+            let res = self.w.put_root(pool, index, root, h);
+            let (c, e) = res_class(&res);
+            let post = self.post();
+            self.out.emit(&json!({"a": "roots", "pool": pool.code(), "index": index, "h": self.w.rel(h), "res": c, "err": e, "post": post}));
+            self.aborted |= c == "panic";
+        }
     }
 
     pub fn post(&mut self) -> Value {
@@ -185,7 +213,10 @@ impl<'a> Run<'a> {
             ok = self.scan(from, limit);
         }
         if ok {
-            let (mut fresh, _) = W::new(self.ironwood);
+            let mut fresh = match self.shard {
+                Some((sap, orch)) => W::sharded(self.ironwood, sap, orch).0,
+                None => W::new(self.ironwood).0,
+            };
             let r1 = fresh.update_tip(top);
             let r2 = fresh.scan(&self.chain, self.chain.base + 1, (top - self.chain.base) as usize);
             if matches!(r1, Ok(Ok(_))) && matches!(r2, Ok(Ok(_))) {
